@@ -145,7 +145,9 @@ func c04R2(p *core.Prog, r *core.Report) {
 	}
 	mgr := fn.Params[1].Name()
 	ex := core.NewExplorer(p, core.Hooks{
-		Inline: func(x *core.X, c *ssa.Function) bool { return c == doLock },
+		Inline: func(x *core.X, c *ssa.Function) bool {
+			return c == doLock || (underFrame(x, doLock) && pureBoolHelper(p, c))
+		},
 		Track: func(x *core.X, a core.Atom) bool {
 			return strings.HasPrefix(a.L, "GetWaitLock(") || core.Plain(a.L) == mgr+".waited"
 		},
@@ -259,7 +261,9 @@ func c04R4(p *core.Prog, r *core.Report) {
 	}
 	cmd := fn.Params[2].Name()
 	ex := core.NewExplorer(p, core.Hooks{
-		Inline: func(x *core.X, c *ssa.Function) bool { return c == prio || c == doLock },
+		Inline: func(x *core.X, c *ssa.Function) bool {
+			return c == prio || c == doLock || ((underFrame(x, doLock) || underFrame(x, prio)) && pureBoolHelper(p, c))
+		},
 		Track: func(x *core.X, a core.Atom) bool {
 			l, rr := core.Plain(a.L), core.Plain(a.R)
 			return strings.HasSuffix(l, ".waited") || strings.HasSuffix(rr, ".locked") || strings.HasSuffix(l, ".locked") || strings.Contains(l, cmd+".TimeoutFlag & 16)")
